@@ -221,8 +221,11 @@ def run(ctx, col: Collector):
         for cname, model in (('NoteBlueprint', 'Note'), ('StickyNoteBlueprint', 'StickyNote')):
             ci = idx.cls('pydbml.parser.blueprints', cname)
             pf = ci.methods.get('_preformat_text')
-            if pf is not None and any(isinstance(c, ast.Call) and norm(c.func) == 'remove_indentation' for c in ast.walk(pf.node)):
-                normalised.add(model)
+            if pf is not None:
+                from ..inline import inlined_info as _ii
+                pfx = _ii(idx, pf, 3, keep={'strip_empty_lines', 'remove_indentation'})
+                if any(isinstance(c, ast.Call) and norm(c.func).split('.')[-1] == 'remove_indentation' for c in ast.walk(pfx.node)):
+                    normalised.add(model)
         groups: Dict[str, List[Tuple[Sink, str]]] = {}
         for s, label in sinks:
             groups.setdefault(f'{label}@{s.fn.qualname}', []).append((s, label))
@@ -316,13 +319,53 @@ def run(ctx, col: Collector):
             b = ci.methods.get('build')
             if pf is None or b is None:
                 raise AnchorMissing(f'{cname}._preformat_text/build')
-            calls = [norm(c.func) for c in sorted([c for c in ast.walk(pf.node) if isinstance(c, ast.Call) and isinstance(c.func, ast.Name)], key=lambda c: (c.lineno, c.col_offset))]
-            col.check(calls == ['strip_empty_lines', 'remove_indentation'], 'C13-normalise', f'{cname}:steps', 'blank lines are stripped, then the common indentation',
-                      f'{cname}._preformat_text applies {calls}; expected strip_empty_lines then remove_indentation (both note kinds must normalise alike)',
-                      node=pf.node, file=pf.file)
-            first = [c for c in ast.walk(pf.node) if isinstance(c, ast.Call) and norm(c.func) == 'strip_empty_lines']
-            col.check(bool(first) and norm(first[0].args[0]) == 'self.text', 'C13-normalise', f'{cname}:input', 'the declared text is what gets normalised',
-                      f'{cname}._preformat_text does not start from self.text', node=pf.node, file=pf.file)
+            # the chain of functions the text goes through, read by dataflow (nested calls, intermediate variables, a helper that composes the steps)
+            from ..inline import inlined_info as _ii
+            pfx = _ii(idx, pf, 3, keep={'strip_empty_lines', 'remove_indentation'})
+
+            def chain(e, env, depth=0):
+                """(steps applied so far, the root the text comes from) or None"""
+                if depth > 12:
+                    return None
+                if isinstance(e, ast.Name):
+                    return env.get(e.id)
+                if isinstance(e, ast.Attribute):
+                    return ([], norm(e))
+                if isinstance(e, ast.Call) and isinstance(e.func, (ast.Name, ast.Attribute)) and len(e.args) == 1 and not e.keywords:
+                    inner = chain(e.args[0], env, depth + 1)
+                    if inner is None:
+                        return None
+                    return (inner[0] + [norm(e.func).split('.')[-1]], inner[1])
+                return None
+            env_: Dict[str, object] = {}
+            result = None
+            straight = True
+            for st in pfx.node.body:
+                if isinstance(st, ast.Expr) and isinstance(st.value, ast.Constant):
+                    continue
+                if isinstance(st, ast.Assign) and len(st.targets) == 1 and isinstance(st.targets[0], ast.Name):
+                    env_[st.targets[0].id] = chain(st.value, env_)
+                elif isinstance(st, ast.Return) and st.value is not None:
+                    result = chain(st.value, env_)
+                    break
+                else:
+                    straight = False
+                    break
+            want_steps = ['strip_empty_lines', 'remove_indentation']
+            if not straight or result is None:
+                col.unk('C13-normalise', f'{cname}:steps', f'{cname}._preformat_text: the chain of normalisation steps could not be followed', node=pf.node, file=pf.file)
+                col.unk('C13-normalise', f'{cname}:input', f'{cname}._preformat_text: cannot see what text is normalised', node=pf.node, file=pf.file)
+            else:
+                steps, root = result
+                if steps == want_steps:
+                    col.ok('C13-normalise', f'{cname}:steps', 'blank lines are stripped, then the common indentation', node=pf.node, file=pf.file)
+                elif set(steps) <= set(want_steps):
+                    col.bad('C13-normalise', f'{cname}:steps', f'{cname}._preformat_text applies {steps}; expected strip_empty_lines then remove_indentation (both note kinds must '
+                            f'normalise alike)', node=pf.node, file=pf.file)
+                else:
+                    col.unk('C13-normalise', f'{cname}:steps', f'{cname}._preformat_text applies {steps}: steps this rule does not know', node=pf.node, file=pf.file)
+                col.check(root == 'self.text', 'C13-normalise', f'{cname}:input', 'the declared text is what gets normalised',
+                          f'{cname}._preformat_text does not start from self.text (it normalises `{root}`)', node=pf.node, file=pf.file)
             uses = any(isinstance(c, ast.Call) and norm(c.func) == 'self._preformat_text' for c in ast.walk(b.node))
             direct = any(isinstance(k, ast.keyword) and k.arg == 'text' and norm(k.value) == 'self.text' for c in ast.walk(b.node) if isinstance(c, ast.Call) for k in c.keywords) or \
                 any(isinstance(c, ast.Call) and c.args and norm(c.args[0]) == 'self.text' and norm(c.func) in ('Note', 'StickyNote') for c in ast.walk(b.node))
